@@ -109,7 +109,7 @@ func NewHTTPResponse(statusCode int, header http.Header, encoding string, data [
 // Age get the age of the response, it is calculated from the time the response itself
 // was fetched (the http cache may have been refreshed since the response was got)
 func (resp *HTTPResponse) Age() int {
-	if resp.createdAt == 0 {
+	if resp == nil || resp.createdAt == 0 {
 		return 0
 	}
 	return int(nowUnix() - resp.createdAt)
